@@ -27,9 +27,29 @@ order of two tied groups, a winner of a tied twin pair, or a relative order of t
 occurs (2^-112 under a uniform shuffle that depends on the caller's seed), and if the q-values of a returned
 table are not the suffix minima of (decoys+1)/(targets+1) counted along the RETURNED ranking (ties must be
 counted in the order they were drawn, not in another one).
-"""
-import random
 
+WRITTEN-TABLE exhibit (same stage; cases of kind "written", replayable): what a user of the command line sees is the file
+`writers.finalize_output` writes, which the in-process API never touches.  The real `main(argv)` (in process; numpy is
+seeded by the tool itself, always with 1, so the draws are varied through the input: 64 random row orders of the evidence
+file + targets first / decoys first / interleaved) writes the table of a method for an input with a block of exactly
+equally scoring targets and decoys; the WRITTEN file is read back.  Two families: methods that read the proteins from the
+evidence file (no FASTA; Percolator and MaxQuant input; identifiers `sp|…` / `REV__sp|…` and identifiers that sort the
+other way round) and remapping methods through --fasta (the default method among them; target/decoy twins compete).
+Fails if, over the random row orders, the number of runs in which the tie block of the written table starts with a target
+leaves the Hoeffding band around its expectation Σ t/(t+d) (probability < 1e-9 under an exchangeable order), if the order
+of the block is a function of its identifiers (every set of tied identifiers that occurs twice is always written in the
+same order), if fewer than two different block orders occur, or — for methods without a rescue step — if the written
+q-values are not the suffix minima of (decoys+1)/(targets+1) counted along the WRITTEN rows.  Thorough tier: also real
+`python -m picked_group_fdr` subprocesses, whose files must equal the ones main(argv) wrote in process.
+"""
+import math
+import os
+import random
+import shutil
+import subprocess
+import tempfile
+
+import gen_cli
 import lib
 from lib import rat, unrat
 from props.C02 import P as P02
@@ -199,6 +219,188 @@ def judge_e2e(case, out):
     return None
 
 
+
+# --------------------------------------------------------------------------------------------------
+# the table the command line WRITES (cases of kind "written")
+# --------------------------------------------------------------------------------------------------
+W_RANDOM = 100         # random row orders per (method, input); + the three fixed arrangements
+W_ALPHA = 1e-9         # bound on the probability that the band is left under an exchangeable order (Hoeffding)
+TIE_PEP = 0.01
+
+
+def w_band(n):
+    """largest deviation |S - E S| of a sum of n independent [0,1] variables that has probability >= W_ALPHA"""
+    return math.sqrt(n * math.log(2.0 / W_ALPHA) / 2.0)
+
+
+def w_file_input(k):
+    """(targets, decoys, others): (peptide, PEP, protein) triples of an evidence file whose proteins are read from the
+    file itself.  A block of equally scoring targets and decoys with distinct base names (nothing competes: all are
+    reported), between better and worse groups."""
+    if k == 0:  # UniProt-style identifiers: `REV__sp|…` sorts BEFORE `sp|…`
+        t = [("TIEDTARGET%sK" % c, TIE_PEP, "sp|T%03d|TIE%d_HUMAN" % (i, i)) for i, c in enumerate("ACDE")]
+        d = [("TIEDDECQY%sK" % c, TIE_PEP, "REV__sp|D%03d|TIE%d_HUMAN" % (i, i + 4)) for i, c in enumerate("ACDE")]
+        o = [("HIGHPEPTIDE%sK" % c, 1e-6 * (i + 1), "sp|A%03d|HIGH%d_HUMAN" % (i, i)) for i, c in enumerate("ACD")]
+        o += [("LQWPEPTIDE%sK" % c, 0.2 + 0.05 * i, "sp|Z%03d|LOW%d_HUMAN" % (i, i)) for i, c in enumerate("AC")]
+        o += [("LQWDECQY%sK" % c, 0.3, "REV__sp|Y%03d|LOW%d_HUMAN" % (i, i + 5)) for i, c in enumerate("A")]
+    else:       # accessions that sort BEFORE `REV__`: alphabetical order would put the targets first
+        t = [("BLQCKTARGET%sR" % c, 0.001, "A0A%03d" % i) for i, c in enumerate("ACD")]
+        d = [("BLQCKDECQY%sR" % c, 0.001, "REV__Q%03d" % i) for i, c in enumerate("ACD")]
+        o = [("BETTERTARGETAK", 1e-5, "B0B001"), ("WQRSEDECQYAK", 0.05, "rev_Q900"), ("WQRSETARGETAK", 0.1, "C0C002")]
+    return t, d, o
+
+
+def w_fasta_input(seed):
+    """database of proteins with ONE peptide each; every target peptide and every generated decoy peptide identified
+    with the same PEP (twins compete under the picked strategies), two better targets"""
+    rng = random.Random("written-fasta:%d" % seed)
+    used = set()
+    db = [("sp|Q%05d|P%d_HUMAN" % (10000 + 13 * i, i), gen_cli.make_peptide(rng, used)) for i in range(1, 9)]
+    better = {pid for pid, _ in db[:2]}
+    t, d, o = [], [], []
+    for pep, prots in gen_cli.peptide_map(db).items():  # the harness's own digest: targets and generated decoys
+        if len(prots) != 1:
+            continue
+        q = prots[0]
+        if q.startswith("REV__"):
+            if q[len("REV__"):] not in better:
+                d.append((pep, TIE_PEP, q))
+        elif q in better:
+            o.append((pep, 1e-5 * (len(o) + 1), q))
+        else:
+            t.append((pep, TIE_PEP, q))
+    return db, t, d, o
+
+
+def w_rows(case, k):
+    """the PSM rows of run k of a "written" case, in the order in which the file lists them"""
+    if case["family"] == "fasta":
+        _, t, d, o = w_fasta_input(case["input"])
+    else:
+        t, d, o = w_file_input(case["input"])
+    if k < 3:
+        rows = o[:1] + arrange(t, d, ARRIVALS[k]) + o[1:]
+    else:
+        rows = t + d + o
+        random.Random("written:%d:%d" % (case["seed"], k)).shuffle(rows)
+    return [{"peptide": p, "proteins": [prot], "pep": pep, "experiment": "exp1", "charge": 2, "intensity": 1000000, "fraction": 1}
+            for p, pep, prot in rows]
+
+
+def w_argv(case, d, k, out):
+    ev = os.path.join(d, "in_%d.txt" % k)
+    rows = w_rows(case, k)
+    with open(ev, "w") as fh:
+        fh.write(gen_cli.evidence_text(rows) if case["evidence"] == "mq" else gen_cli.percolator_text(rows))
+    argv = ["--mq_evidence" if case["evidence"] == "mq" else "--perc_evidence", ev, "--methods", case["method"], "--protein_groups_out", out]
+    if case["family"] == "fasta":
+        fa = os.path.join(d, "db.fasta")
+        if not os.path.exists(fa):
+            with open(fa, "w") as fh:
+                fh.write("".join(gen_cli.fasta_text(w_fasta_input(case["input"])[0])))
+        argv += ["--fasta", fa, "--min-length", "5", "--cleavages", "0"]
+    return argv
+
+
+def w_read(path):
+    with open(path, newline="", encoding="utf-8") as fh:
+        ls = [ln.rstrip("\r\n").split("\t") for ln in fh]
+    h = ls[0]
+    c = [h.index(n) for n in ("Protein IDs", "Q-value", "Score", "Reverse")]
+    return [[r[c[0]], float(r[c[1]]), float(r[c[2]]), r[c[3]]] for r in ls[1:]]
+
+
+def run_written(case):
+    """the real main(argv) in process for every row order of the case; the WRITTEN tables, read back"""
+    import logging
+
+    from picked_group_fdr import picked_group_fdr as pgf
+
+    d = tempfile.mkdtemp(prefix="c14w_")
+    prev = logging.root.manager.disable
+    logging.disable(logging.CRITICAL)
+    runs, sub = [], []
+    try:
+        for k in range(case["runs"]):
+            out = os.path.join(d, "out_%d.txt" % k)
+            argv = w_argv(case, d, k, out)
+            pgf.main(argv)
+            runs.append(w_read(out))
+            if k < case.get("subprocesses", 0):  # the same command line as a real process
+                out2 = os.path.join(d, "sub_%d.txt" % k)
+                p = subprocess.run([lib.PY, "-m", "picked_group_fdr"] + argv[:-1] + [out2], capture_output=True, text=True,
+                                   env=lib.impl_env({"PYTHONHASHSEED": str(k)}), timeout=600)
+                same = p.returncode == 0 and open(out2, "rb").read() == open(out, "rb").read()
+                sub.append({"rc": p.returncode, "same_bytes": same, "stderr": p.stderr[-300:] if p.returncode else ""})
+    finally:
+        logging.disable(prev)
+        shutil.rmtree(d, ignore_errors=True)
+    return {"written": {"runs": runs, "subprocess": sub}}
+
+
+def w_block(rows):
+    """the tie block of a written table: the rows of the most frequent score that holds a target and a decoy (the
+    first such score down the table), as (identifier, is decoy)"""
+    by = {}
+    for r in rows:
+        by.setdefault(r[2], []).append((r[0], row_is_decoy(r[0])))
+    best = None
+    for sc, b in by.items():
+        if len({x[1] for x in b}) == 2 and (best is None or len(b) > len(best)):
+            best = b
+    return best or []
+
+
+def judge_written(case, out):
+    """the tie statement on the WRITTEN tables; None = nothing exhibited"""
+    w = out["written"]
+    where = "table written by the command line (main(argv), --methods %s, %s input, %s): " % (
+        case["method"], case["evidence"], "maps from --fasta" if case["family"] == "fasta" else "proteins from the evidence file")
+    for k, s_ in enumerate(w["subprocess"]):
+        if s_["rc"] != 0 or not s_["same_bytes"]:
+            return where + "`python -m picked_group_fdr` as a real process (row order %d) %s" % (
+                k, "exited with %d: %s" % (s_["rc"], s_["stderr"]) if s_["rc"] else "wrote other bytes than main(argv) in process")
+    runs = w["runs"]
+    for k, rows in enumerate(runs):
+        sc = [r[2] for r in rows]
+        if any(a < b for a, b in zip(sc, sc[1:])):
+            return where + "row order %d: the written scores are not non-increasing" % k
+        if not case["rescue"] and all(";" not in r[0] for r in rows):
+            want = expected_qvalues([row_is_decoy(r[0]) for r in rows])
+            got = [r[1] for r in rows]
+            if got != want:
+                return where + ("row order %d: the written ranking %r carries q-values %r, but the estimate (decoys+1)/(targets+1) with "
+                                "suffix minima counted along the WRITTEN rows is %r (the file must list equal scores in the order in which "
+                                "they were counted)" % (k, [r[0] for r in rows], got, want))
+    blocks = [w_block(rows) for rows in runs]
+    rnd = [b for b in blocks[3:] if b]
+    n = len(rnd)
+    if n >= 16:
+        first_t = sum(1 for b in rnd if not b[0][1])
+        expect = sum(sum(1 for x in b if not x[1]) / len(b) for b in rnd)
+        if abs(first_t - expect) > w_band(n):
+            return where + ("over %d random row orders of the evidence file the block of equally scoring groups starts with a target in %d "
+                            "written tables (expected %.1f +- %.1f if the order inside the block is drawn at random; probability < %g): "
+                            "e.g. %r" % (n, first_t, expect, w_band(n), W_ALPHA, [x[0] for x in rnd[0]]))
+    allb = [b for b in blocks if len(b) >= 2]
+    if len(allb) >= 8:
+        orders = {tuple(x[0] for x in b) for b in allb}
+        if len(orders) < 2:
+            return where + "%d runs with different row orders: the tie block is always written in the same order %r" % (len(allb), sorted(orders)[0])
+        by_set = {}
+        for b in allb:
+            by_set.setdefault(frozenset(x[0] for x in b), set()).add(tuple(x[0] for x in b))
+        cnt = {}
+        for b in allb:
+            cnt[frozenset(x[0] for x in b)] = cnt.get(frozenset(x[0] for x in b), 0) + 1
+        rep_runs = sum(c for s_, c in cnt.items() if c >= 2 and len(s_) >= 3)
+        if rep_runs >= 10 and all(len(by_set[s_]) == 1 for s_, c in cnt.items() if c >= 2 and len(s_) >= 3):
+            ex = next(sorted(by_set[s_])[0] for s_, c in cnt.items() if c >= 2 and len(s_) >= 3)
+            return where + ("the order of the tie block is a function of its identifiers: every set of tied groups that occurs in several "
+                            "runs (%d runs) is always written in one order, e.g. %r" % (rep_runs, ex))
+    return None
+
+
 def arrange(targets, decoys, arrival, rng=None):
     if arrival == "targets_first":
         return targets + decoys
@@ -231,7 +433,8 @@ class P(P02):
     assumptions = P02.assumptions + [
         "numpy's legacy generator draws the shuffle permutation uniformly (trusted; the counting theorem is about all n! permutations)",
     ]
-    trusted_extra = P02.trusted_extra + ["wrapper recording the pass order via ProteinCompetitionStrategy._is_protein_seen"]
+    trusted_extra = P02.trusted_extra + ["wrapper recording the pass order via ProteinCompetitionStrategy._is_protein_seen",
+                                         "harness/gen_cli.py (Percolator / MaxQuant evidence and FASTA text, own digest) and the reader of the written table in the written-table exhibit"]
 
     # -- generation --------------------------------------------------------------------------
     def gen_call(self, rng, scorer, arrival):
@@ -308,19 +511,61 @@ class P(P02):
 
     # -- end-to-end exhibit cases (kind "e2e") are evaluated by the oracle only; they make the exhibit replayable ----
     def run_impl(self, case):
+        if case.get("kind") == "written":
+            return run_written(case)
         if case.get("kind") == "e2e":
             return run_e2e(case)
         return super().run_impl(case)
 
     def model_request(self, case, impl_out):
-        if case.get("kind") == "e2e":
+        if case.get("kind") in ("e2e", "written"):
             return None
         return super().model_request(case, impl_out)
 
     def shrink(self, case):
-        if case.get("kind") == "e2e":
+        if case.get("kind") in ("e2e", "written"):
             return iter(())
         return super().shrink(case)
+
+    def written_cases(self, tier, seed):
+        """one case per (method, input): methods that read the proteins from the evidence file (the tool needs no
+        peptide->protein map for them) on the two block inputs, and remapping Percolator methods through --fasta"""
+        import tomllib
+
+        from picked_group_fdr import methods as M
+
+        out = []
+        names = sorted(p.stem for p in (lib.REPO / "picked_group_fdr" / "methods").glob("*.toml"))
+        for m in names:
+            d = tomllib.loads((lib.REPO / "picked_group_fdr" / "methods" / (m + ".toml")).read_text())
+            st = d.get("scoreType", "")
+            if any(x in st for x in ("FragPipe", "Sage", "DIA-NN")) or "multPEP" in st:
+                continue  # other file formats; multPEP: the score is not a function of the best PEP alone
+            try:
+                needs_map = M.requires_peptide_to_protein_map([M.parse_method_toml(m, use_pseudo_genes=False)])
+            except Exception:
+                continue
+            ev = "perc" if "Perc" in st else "mq"
+            base = {"kind": "written", "method": m, "evidence": ev, "rescue": "rescued" in str(d.get("grouping")),
+                    "picked": d.get("pickedStrategy"), "runs": 3 + W_RANDOM, "subprocesses": 0}
+            if not needs_map:
+                for k in (0, 1):
+                    out.append(dict(base, family="file", input=k, seed=1000 * (len(out) + 1) + 7 * seed))
+            elif ev == "perc" and d.get("sharedPeptides") != "razor":
+                out.append(dict(base, family="fasta", input=seed, seed=1000 * (len(out) + 1) + 7 * seed))
+        if tier == "quick":  # every method that needs no map; of the remapping ones the default method and one per strategy
+            keep, seen = [], set()
+            for c in out:
+                k = (c["picked"], c["rescue"])
+                if c["family"] == "file" or c["method"] == "picked_protein_group" or k not in seen:
+                    keep.append(c)
+                    if c["family"] == "fasta":
+                        seen.add(k)
+            out = keep
+        else:
+            for c in out[:: max(1, len(out) // 6)]:
+                c["subprocesses"] = 2
+        return out
 
     def e2e_cases(self, tier, seed):
         import tomllib
@@ -415,6 +660,10 @@ class P(P02):
         return None
 
     def oracle(self, case, impl_out):
+        if case.get("kind") == "written":
+            if not isinstance(impl_out, dict) or "written" not in impl_out:
+                return "no written table: %r" % (impl_out,)
+            return judge_written(case, impl_out)
         if case.get("kind") == "e2e":
             if not isinstance(impl_out, dict) or "e2e" not in impl_out:
                 return "no end-to-end result: %r" % (impl_out,)
@@ -429,11 +678,15 @@ class P(P02):
 
     # -- bookkeeping -----------------------------------------------------------------------------------
     def nontrivial(self, case, impl_out):
+        if case.get("kind") == "written":
+            return isinstance(impl_out, dict) and "written" in impl_out and len({tuple(r[0] for r in rows) for rows in impl_out["written"]["runs"]}) > 1
         if case.get("kind") == "e2e":
             return isinstance(impl_out, dict) and "e2e" in impl_out and impl_out["e2e"]["distinct_rankings"] > 1
         return self._stats(case, impl_out)["tie"]
 
     def features(self, case, impl_out):
+        if case.get("kind") == "written":
+            return ["written", "written:%s" % case.get("family"), "written:method=%s" % case.get("method")]
         if case.get("kind") == "e2e":
             return ["e2e", "e2e:%s" % case.get("exhibit"), "arrival=%s" % case.get("arrival")]
         f = super().features(case, impl_out)
@@ -545,4 +798,36 @@ class P(P02):
                         failures.append({"case": case, "why": why, "impl": out, "kind": "e2e"})
                     seen_fail.add(k[1])
         info["end_to_end"] = e2e
+        # ---- the same question asked of the table the command line WRITES ----
+        wr = {"inputs": 0, "tables": 0, "subprocess_runs": 0, "methods": [], "min_distinct_block_orders": None,
+              "target_first_fraction_min_max": None, "qvalue_tables_checked": 0, "band": round(w_band(W_RANDOM), 1), "alpha": W_ALPHA}
+        if not ctx.get("replay"):
+            fr = []
+            for case in self.written_cases(ctx.get("tier", "quick"), int(ctx.get("seed", 0) or 0)):
+                out = lib._safe(self.run_impl, case)
+                if not (isinstance(out, dict) and "written" in out):
+                    failures.append({"case": case, "why": "the command line raised: %r" % (out,), "kind": "written"})
+                    continue
+                runs = out["written"]["runs"]
+                wr["inputs"] += 1
+                wr["tables"] += len(runs)
+                wr["subprocess_runs"] += len(out["written"]["subprocess"])
+                evals += len(runs)
+                if case["method"] not in wr["methods"]:
+                    wr["methods"].append(case["method"])
+                blocks = [w_block(rows) for rows in runs]
+                orders = {tuple(x[0] for x in b) for b in blocks if b}
+                wr["min_distinct_block_orders"] = len(orders) if wr["min_distinct_block_orders"] is None else min(len(orders), wr["min_distinct_block_orders"])
+                rnd = [b for b in blocks[3:] if b]
+                if rnd:
+                    fr.append(sum(1 for b in rnd if not b[0][1]) / len(rnd))
+                if not case["rescue"]:
+                    wr["qvalue_tables_checked"] += sum(1 for rows in runs if all(";" not in r[0] for r in rows))
+                distinct_nontrivial += 1 if len(orders) > 1 else 0
+                why = self.oracle(case, out)
+                if why:
+                    failures.append({"case": case, "why": why, "impl": out if len(failures) < 2 else None, "kind": "written"})
+            if fr:
+                wr["target_first_fraction_min_max"] = [round(min(fr), 3), round(max(fr), 3)]
+        info["written_tables"] = wr
         return {"evaluations": evals, "failures": failures, "info": info, "distinct_nontrivial": distinct_nontrivial}
